@@ -98,14 +98,21 @@ func (g *Gen) apex(z Name, o Opts) {
 			g.NS(z, z.Child("ns2"), "", g.randIP(), lo)
 		}
 	}
-	if o.Located && g.R.Chance(1, 2) {
-		// the zone cut as seen from a location: located NS (and sometimes SOA) next to the untagged ones
+	if o.Located && g.R.Chance(2, 3) {
+		// the zone cut as seen from a location (split horizon): next to the untagged SOA and NS, a
+		// located NS only, a located SOA only, or both - mostly for a location clients are mapped
+		// to.  The located SOA differs from the untagged one (serial, sometimes the timers), the
+		// located NS has its own target and glue.
 		l := g.loc(true)
-		if l != nil {
-			g.NS(z, z.Child("ns-"+string(l)), "", g.maybeIP(), l)
-			if g.R.Chance(1, 3) {
-				g.SOA(z, l)
-			}
+		if l == nil || g.R.Chance(1, 2) {
+			l = [][]byte{locA, locB}[g.R.Intn(2)]
+		}
+		shape := g.R.Pick([]int{3, 2, 2})
+		if shape != 1 {
+			g.NS(z, z.Child("ns-"+fmt.Sprintf("%x", l)), "", g.maybeIP(), l)
+		}
+		if shape != 0 {
+			g.SOA(z, l)
 		}
 	}
 }
